@@ -227,6 +227,142 @@ per_elem! {
     e_unit: ();
 }
 
+// ------------------------------------------------------------------ unbounded sizes and lengths
+
+/// like `lockstep!` but for a fixed number of steps, without requiring exhaustion
+macro_rules! lockstep_k {
+    ($k:ident, $st:ident, $steps:expr, $somes:ident, |$a:ident, $b:ident| $same:expr) => {
+        let mut i = 0;
+        while i < $steps {
+            let back: bool = kani::any();
+            let (kn, sn) = if back { ($k.copy().next_back(), $st.next_back()) } else { ($k.copy().next(), $st.next()) };
+            match (kn, sn) {
+                (None, None) => {}
+                (Some(($a, rest)), Some($b)) => {
+                    assert!($same);
+                    $k = rest;
+                    $somes += 1;
+                }
+                _ => assert!(false),
+            }
+            i += 1;
+        }
+    };
+}
+
+/// A symbolic usize from the neighbourhoods that matter for overflow: `0..=k`, `isize::MAX-k ..=
+/// isize::MAX+k+1` and `usize::MAX-k ..= usize::MAX` (fully symbolic 64-bit operands of `/` and `%`
+/// do not finish in reach; these three neighbourhoods contain every overflow boundary of the
+/// expressions in the iterators: len+size-1, len-1, len/size*size, start > isize::MAX).
+fn boundary_usize(k: usize) -> usize {
+    let off: usize = kani::any();
+    kani::assume(off <= k);
+    let region: u8 = kani::any();
+    match region {
+        0 => off,
+        1 => (isize::MAX as usize) - off,
+        2 => (isize::MAX as usize) + 1 + off,
+        _ => usize::MAX - off,
+    }
+}
+
+/// every chunk/window size from the boundary neighbourhoods (not just up to len+1) on short u16 slices
+fn any_size<const CAP: usize, const WHICH: u8>() {
+    sym_slice!(s, u16, CAP);
+    let n: usize = boundary_usize(CAP + 1);
+    kani::assume(n >= 1);
+    let which: u8 = WHICH;
+    let mut somes = 0usize;
+    match which {
+        0 => { let mut k = ks::windows(s, n); let mut st = s.windows(n); lockstep_k!(k, st, CAP + 1, somes, |a, b| same_s(a, b)); }
+        1 => { let mut k = ks::chunks(s, n); let mut st = s.chunks(n); lockstep_k!(k, st, CAP + 1, somes, |a, b| same_s(a, b)); }
+        2 => { let mut k = ks::rchunks(s, n); let mut st = s.rchunks(n); lockstep_k!(k, st, CAP + 1, somes, |a, b| same_s(a, b)); }
+        3 => {
+            let mut k = ks::chunks_exact(s, n);
+            let mut st = s.chunks_exact(n);
+            assert!(same_s(k.remainder(), st.remainder()));
+            lockstep_k!(k, st, CAP + 1, somes, |a, b| same_s(a, b));
+        }
+        _ => {
+            let mut k = ks::rchunks_exact(s, n);
+            let mut st = s.rchunks_exact(n);
+            assert!(same_s(k.remainder(), st.remainder()));
+            lockstep_k!(k, st, CAP + 1, somes, |a, b| same_s(a, b));
+        }
+    }
+    must_reach!(n == usize::MAX && s.len() == CAP, "size usize::MAX on a full slice");
+    must_reach!(n == (isize::MAX as usize) + 1 && s.len() > 0, "size isize::MAX + 1");
+    must_reach!(somes == CAP && n == 1 && which != 0 || which == 0 && somes >= 2, "several items");
+}
+
+/// zero-sized elements: slice lengths and sizes from the boundary neighbourhoods up to usize::MAX, first 3 steps from either end
+fn zst_any_len<const WHICH: u8>() {
+    static BIG: [(); usize::MAX] = [(); usize::MAX];
+    let len: usize = boundary_usize(7);
+    let s = &BIG[..len];
+    let n: usize = boundary_usize(3);
+    kani::assume(n >= 1);
+    let mut somes = 0usize;
+    match WHICH {
+        0 => { let mut k = ks::windows(s, n); let mut st = s.windows(n); lockstep_k!(k, st, 3, somes, |a, b| a.len() == b.len()); }
+        1 => { let mut k = ks::chunks(s, n); let mut st = s.chunks(n); lockstep_k!(k, st, 3, somes, |a, b| a.len() == b.len()); }
+        2 => { let mut k = ks::rchunks(s, n); let mut st = s.rchunks(n); lockstep_k!(k, st, 3, somes, |a, b| a.len() == b.len()); }
+        3 => {
+            let mut k = ks::chunks_exact(s, n);
+            let mut st = s.chunks_exact(n);
+            assert!(k.remainder().len() == st.remainder().len());
+            lockstep_k!(k, st, 3, somes, |a, b| a.len() == b.len());
+        }
+        4 => {
+            let mut k = ks::rchunks_exact(s, n);
+            let mut st = s.rchunks_exact(n);
+            assert!(k.remainder().len() == st.remainder().len());
+            lockstep_k!(k, st, 3, somes, |a, b| a.len() == b.len());
+        }
+        5 => {
+            let mut k = ks::array_chunks::<(), 3>(s);
+            let (arrs, rem) = s.as_chunks::<3>();
+            assert!(k.remainder().len() == rem.len());
+            let mut st = arrs.iter();
+            lockstep_k!(k, st, 3, somes, |a, b| true);
+        }
+        _ => { let mut k = ks::iter(s); let mut st = s.iter(); lockstep_k!(k, st, 3, somes, |a, b| true); }
+    }
+    must_reach!(len == usize::MAX && somes == 3, "three items from a slice of usize::MAX zero-sized elements");
+    must_reach!(len > (isize::MAX as usize) && n > (isize::MAX as usize) && somes >= 1 || WHICH >= 5, "length and size beyond isize::MAX");
+    must_reach!(somes == 0, "nothing yielded");
+}
+
+tiers! { any_size_windows: unwind(9, 12), any_size::<6, 0>(), any_size::<9, 0>(),
+    calls("konst::slice::windows"),
+    bounds("u16 slices <=6; sizes 1..=7, isize::MAX-7..=isize::MAX+8, usize::MAX-7..=usize::MAX; every interleaving of 7 steps", "slices <=9, 10 steps") }
+tiers! { any_size_chunks: unwind(9, 12), any_size::<6, 1>(), any_size::<9, 1>(),
+    calls("konst::slice::chunks"),
+    bounds("u16 slices <=6; sizes 1..=7, isize::MAX-7..=isize::MAX+8, usize::MAX-7..=usize::MAX; every interleaving of 7 steps", "slices <=9, 10 steps") }
+tiers! { any_size_rchunks: unwind(9, 12), any_size::<6, 2>(), any_size::<9, 2>(),
+    calls("konst::slice::rchunks"),
+    bounds("u16 slices <=6; sizes 1..=7, isize::MAX-7..=isize::MAX+8, usize::MAX-7..=usize::MAX; every interleaving of 7 steps", "slices <=9, 10 steps") }
+tiers! { any_size_chunks_exact: unwind(9, 12), any_size::<6, 3>(), any_size::<9, 3>(),
+    calls("konst::slice::chunks_exact"),
+    bounds("u16 slices <=6; sizes 1..=7, isize::MAX-7..=isize::MAX+8, usize::MAX-7..=usize::MAX; every interleaving of 7 steps", "slices <=9, 10 steps") }
+tiers! { any_size_rchunks_exact: unwind(9, 12), any_size::<6, 4>(), any_size::<9, 4>(),
+    calls("konst::slice::rchunks_exact"),
+    bounds("u16 slices <=6; sizes 1..=7, isize::MAX-7..=isize::MAX+8, usize::MAX-7..=usize::MAX; every interleaving of 7 steps", "slices <=9, 10 steps") }
+tiers! { zst_any_len_windows: unwind(5, 5), zst_any_len::<0>(), zst_any_len::<0>(),
+    calls("konst::slice::windows::<()>"), bounds("zero-sized elements; lengths 0..=7, isize::MAX-7..=isize::MAX+8, usize::MAX-7..=usize::MAX; sizes from the same neighbourhoods (+-3); first 3 steps from either end", "same") }
+tiers! { zst_any_len_chunks: unwind(5, 5), zst_any_len::<1>(), zst_any_len::<1>(),
+    calls("konst::slice::chunks::<()>"), bounds("zero-sized elements; lengths 0..=7, isize::MAX-7..=isize::MAX+8, usize::MAX-7..=usize::MAX; sizes from the same neighbourhoods (+-3); first 3 steps from either end", "same") }
+tiers! { zst_any_len_rchunks: unwind(5, 5), zst_any_len::<2>(), zst_any_len::<2>(),
+    calls("konst::slice::rchunks::<()>"), bounds("zero-sized elements; lengths 0..=7, isize::MAX-7..=isize::MAX+8, usize::MAX-7..=usize::MAX; sizes from the same neighbourhoods (+-3); first 3 steps from either end", "same") }
+tiers! { zst_any_len_chunks_exact: unwind(5, 5), zst_any_len::<3>(), zst_any_len::<3>(),
+    calls("konst::slice::chunks_exact::<()>"), bounds("zero-sized elements; lengths 0..=7, isize::MAX-7..=isize::MAX+8, usize::MAX-7..=usize::MAX; sizes from the same neighbourhoods (+-3); first 3 steps from either end", "same") }
+tiers! { zst_any_len_rchunks_exact: unwind(5, 5), zst_any_len::<4>(), zst_any_len::<4>(),
+    calls("konst::slice::rchunks_exact::<()>"), bounds("zero-sized elements; lengths 0..=7, isize::MAX-7..=isize::MAX+8, usize::MAX-7..=usize::MAX; sizes from the same neighbourhoods (+-3); first 3 steps from either end", "same") }
+tiers! { zst_any_len_array_chunks3: unwind(5, 5), zst_any_len::<5>(), zst_any_len::<5>(),
+    calls("konst::slice::array_chunks3::<()>"), bounds("zero-sized elements; lengths 0..=7, isize::MAX-7..=isize::MAX+8, usize::MAX-7..=usize::MAX; sizes from the same neighbourhoods (+-3); first 3 steps from either end", "same") }
+tiers! { zst_any_len_iter: unwind(5, 5), zst_any_len::<6>(), zst_any_len::<6>(),
+    calls("konst::slice::iter::<()>"), bounds("zero-sized elements; lengths 0..=7, isize::MAX-7..=isize::MAX+8, usize::MAX-7..=usize::MAX; sizes from the same neighbourhoods (+-3); first 3 steps from either end", "same") }
+
 /// copied elements: values, not addresses
 fn iter_copied<const CAP: usize>() {
     sym_slice!(s, u16, CAP);
